@@ -480,7 +480,7 @@ def unit_split(sess, ctx):
                 x = mk[0][1]
                 eng.prove("C05:split:region-built-from-the-token-frames-and-start", x[0] is d and x[1] is a, props=("C05",))
                 eng.prove("C05:split:region-start-uses-the-reader's-real-block-duration",
-                          (x[2].t == rdr_view["bd"].t) if isinstance(x[2], Fl) else False, props=("C05",))
+                          (x[2].t == rdr_view["bd"].t) if isinstance(x[2], Fl) else False, props=("C05", "C09"))
                 eng.prove("C05:split:region-format-is-the-reader's",
                           And(I(x[3]) == rdr_view["sr"], I(x[4]) == rdr_view["sw"], I(x[5]) == rdr_view["ch"])
                           if all(is_int(y) for y in x[3:6]) else False, props=("C05",))
